@@ -16,12 +16,15 @@ What counts as externally reachable (features tempering, parallel-tempering, ser
 `#[cfg(test)]` modules, `pub(crate)` items, private items, the verification hooks (`#[cfg(qmc_verif)]`) and features that
 the harness does not enable (`const_generics`, `nightly`) are not part of the census.
 
-Coverage rule (purely textual, over harness/src/**/*.rs with comments removed):
-  * ordinary functions: the bare name occurs as a word in at least one harness file;
-  * foreign-trait / derived implementations and inherent names owned by more than one type (`new`, `into_vec`, ...):
-    the qualified marker `Owner::name` occurs in at least one harness file (the bin `apicov` prints one
-    `STAT api.Owner::name <count>` line per function it exercises, so its source carries these markers).
-Exit status 1 if a function is covered nowhere and is not in ALLOW below (each entry carries its reason)."""
+Coverage rule (purely textual, over harness/src/**/*.rs with `//` comments removed):
+  * ordinary functions (free, inherent, trait methods and their implementations): the bare name occurs as a word in at least
+    one harness file; inherent names owned by more than one type (`new`, `into_vec`, `get_cutoff`, ...) are covered by the same
+    rule, and the harness files carrying the qualified marker `Owner::name` are listed next to them;
+  * foreign-trait / derived implementations (`clone`, `fmt`, `eq`, `default`, `from`, `serde`): the qualified marker
+    `Owner::name` occurs in at least one harness file (the bin `apicov` prints one `STAT api.Owner::name <count>` line per
+    function it exercises, so its source carries these markers next to the calls).
+`--without bin/apicov.rs` computes the coverage as it was before that bin existed; `--uncovered` lists only what is missing;
+`--table` prints markdown rows. Exit status 1 if a function is covered nowhere and is not in ALLOW below (reason required)."""
 import os
 import re
 import sys
@@ -29,13 +32,11 @@ import sys
 REPO = os.environ.get("VERIF_REPO", "/repo")
 HARNESS = os.environ.get("VERIF_HARNESS_DIR", "/verif/harness") + "/src"
 
-# name (qualified `Owner::name`, or `<Type as Trait>::name`) -> reason why no harness has to call it
-ALLOW = {
-    "qmc_ising::new_qmc":
-        "exercised by apicov (constructors-vs-canonical); listed here only as documentation that its trajectory cannot be "
-        "compared (thread_rng inside)",
-}
-ALLOW.clear()  # nothing is exempt at the moment; keep the mechanism
+# `Owner::name` (or `<Type as Trait>::name`) -> reason why no harness has to call it. Empty at the moment: every externally
+# reachable function is exercised somewhere. Not externally reachable, hence not in the census at all: `Qmc::set_manager`,
+# `Allocator::new_with_max_in_flight`, `StackTuplizer::*` (pub(crate)), `p_crosses`, `BondContainer::remove_index`,
+# `BondContainer::correct_total_weight`, `Interaction::new*`, `index_from_*` (private), module `ham`, `vec_help` (pub(crate)).
+ALLOW = {}
 
 FOREIGN = {"Clone": ["clone"], "From": ["from"], "PartialEq": ["eq"], "Default": ["default"], "Debug": ["fmt"],
            "Extend": ["extend"], "Eq": [], "Copy": [], "Serialize": ["serde"], "Deserialize": ["serde"]}
@@ -257,6 +258,10 @@ def parse_file(path, rel, modreach, items, pubtypes_pass=None):
                                          tyname in ("Q", "T"))
                 if tr is not None and tr not in FOREIGN and tr not in PUB_TRAITS:
                     reach = False
+                if tr == "From" and not reach and cur_reach():
+                    src_ty = re.search(r"From<\s*([\w:]+)", h)
+                    if src_ty and src_ty.group(1).split("::")[-1] in PUB_TYPES:
+                        tyname, reach = src_ty.group(1).split("::")[-1] + "_into", True
                 # blanket impls `impl<Q: QmcStepper> QmcAutoCorrelations for Q`
                 if tr in PUB_TRAITS and tyname in ("Q", "T") and cur_reach():
                     reach = True
@@ -386,6 +391,8 @@ def harness_sources(hdir):
 
 
 def coverage(items, files):
+    """rows: (item, covered, where, cls, quals). cls: 'fn' ordinary function (bare-name rule), 'ambiguous' inherent name owned
+    by several types (bare-name rule, qualified markers shown), 'value' foreign-trait / derived impl (marker rule)."""
     owners = {}
     for it in items:
         if it.kind in ("inherent", "free"):
@@ -396,14 +403,13 @@ def coverage(items, files):
         qual = "%s::%s" % (it.owner, it.name)
         bare = sorted(f for f, (c, _) in files.items() if word.search(c))
         quals = sorted(f for f, (_, c2) in files.items() if qual in c2)
-        need_qual = it.kind in ("foreign", "derive") or (it.kind in ("inherent", "free") and len(owners.get(it.name, ())) > 1)
-        if need_qual:
-            covered = bool(quals)
-            where = quals
+        if it.kind in ("foreign", "derive"):
+            cls, covered, where = "value", bool(quals), quals
+        elif it.kind in ("inherent", "free") and len(owners.get(it.name, ())) > 1:
+            cls, covered, where = "ambiguous", bool(bare), bare
         else:
-            covered = bool(bare)
-            where = bare
-        rows.append((it, covered, where, need_qual, quals))
+            cls, covered, where = "fn", bool(bare), bare
+        rows.append((it, covered, where, cls, quals))
     return rows
 
 
@@ -416,37 +422,44 @@ def main():
         hdir = args[args.index("--harness") + 1]
     items = census(repo)
     files = harness_sources(hdir)
-    rows = coverage(items, files)
     only_unc = "--uncovered" in args
     table = "--table" in args
     exclude = None
     if "--without" in args:  # coverage as it would be without one harness file (e.g. --without bin/apicov.rs)
         exclude = args[args.index("--without") + 1]
-        files2 = {f: v for f, v in files.items() if f != exclude}
-        rows = coverage(items, files2)
+        files = {f: v for f, v in files.items() if f != exclude}
+    rows = coverage(items, files)
     bad = []
-    n_cov = 0
-    for it, covered, where, need_qual, quals in sorted(rows, key=lambda r: (r[0].file, r[0].line)):
+    tot = {"fn": [0, 0], "ambiguous": [0, 0], "value": [0, 0]}
+    for it, covered, where, cls, quals in sorted(rows, key=lambda r: (r[0].file, r[0].line)):
         q = it.qual if it.kind != "derive" else "%s::%s (derive %s)" % (it.owner, it.name, it.via)
-        if covered:
-            n_cov += 1
+        tot[cls][0] += 1
+        tot[cls][1] += bool(covered)
         allowed = it.qual in ALLOW or ("%s::%s" % (it.owner, it.name)) in ALLOW
         if not covered and not allowed:
             bad.append(it)
         if only_unc and covered:
             continue
-        mark = "ok " if covered else ("ALLOW" if allowed else "MISSING")
+        mark = "ok" if covered else ("ALLOW" if allowed else "MISSING")
+        short = lambda ws: " ".join(w.replace("bin/", "").replace(".rs", "") for w in ws) or "-"
+        extra = ""
+        if cls == "ambiguous":
+            extra = " [name owned by several types; `%s::%s` marker in: %s]" % (it.owner, it.name, short(quals))
+        elif cls == "value":
+            extra = " [marker rule]"
         if table:
-            print("| `%s` | %s:%d | %s | %s |" % (q, it.file, it.line, it.kind, ", ".join(w.replace("bin/", "") for w in where) or "-"))
+            print("| `%s` | %s:%d | %s | %s |" % (q, it.file, it.line, it.kind, short(where)))
         else:
-            print("%-7s %-62s %-38s %s%s" % (mark, q, "%s:%d" % (it.file, it.line),
-                                           ("[qualified] " if need_qual else ""),
-                                           " ".join(w.replace("bin/", "").replace(".rs", "") for w in where) or "-"))
-    print("# externally reachable functions: %d; covered: %d; uncovered: %d (allowlisted: %d)%s"
-          % (len(rows), n_cov, len(rows) - n_cov, len(rows) - n_cov - len(bad),
-             "; computed without %s" % exclude if exclude else ""))
+            print("%-7s %-62s %-38s %s%s" % (mark, q, "%s:%d" % (it.file, it.line), short(where), extra))
+    n = len(rows)
+    ncov = sum(1 for r in rows if r[1])
+    print("# externally reachable functions: %d; covered: %d; uncovered: %d%s"
+          % (n, ncov, n - ncov, "; computed without %s" % exclude if exclude else ""))
+    print("#   ordinary functions (bare-name rule): %d, covered %d" % tuple(tot["fn"]))
+    print("#   inherent names owned by several types (bare-name rule; markers listed): %d, covered %d" % tuple(tot["ambiguous"]))
+    print("#   Clone/Debug/PartialEq/Default/From/serde impls, hand written or derived (marker rule): %d, covered %d" % tuple(tot["value"]))
     if bad:
-        print("# NOT COVERED BY ANY HARNESS:")
+        print("# NOT COVERED BY ANY HARNESS (and not allowlisted):")
         for it in bad:
             print("#   %s  (%s:%d)" % (it.qual, it.file, it.line))
         return 1
